@@ -337,17 +337,35 @@ func c17() []*Ob {
 				}
 				li := Locksets(fn, nil)
 				var lookups, updates []ssa.Instruction
-				for _, b := range fn.Blocks {
-					for _, in := range b.Instrs {
-						switch x := in.(type) {
-						case *ssa.Lookup:
-							if ValueIsField(x.X, "frac.DocsPositions", "positions") {
-								lookups = append(lookups, x)
+				collect := func(f *ssa.Function) (ls, us []ssa.Instruction) {
+					for _, b := range f.Blocks {
+						for _, in := range b.Instrs {
+							switch x := in.(type) {
+							case *ssa.Lookup:
+								if ValueIsField(x.X, "frac.DocsPositions", "positions") {
+									ls = append(ls, x)
+								}
+							case *ssa.MapUpdate:
+								if ValueIsField(x.Map, "frac.DocsPositions", "positions") {
+									us = append(us, x)
+								}
 							}
-						case *ssa.MapUpdate:
-							if ValueIsField(x.Map, "frac.DocsPositions", "positions") {
-								updates = append(updates, x)
-							}
+						}
+					}
+					return
+				}
+				lookups, updates = collect(fn)
+				// the check-and-store step may live in a private helper that SetMultiple calls with the lock held:
+				// the lock state is then the one at the call, the guard is judged inside the helper
+				var viaCall ssa.Instruction
+				if len(lookups) == 0 && len(updates) == 0 {
+					for _, call := range CallsIn(fn, nil) {
+						h := StaticCallee(call)
+						if h == nil || h.Blocks == nil || !c.P.InRepo(h) {
+							continue
+						}
+						if ls, us := collect(h); len(ls) > 0 && len(us) > 0 && len(CallsIn(h, Callee("(*sync.RWMutex).Unlock", "(*sync.RWMutex).RUnlock", "(*sync.RWMutex).Lock", "(*sync.RWMutex).RLock"))) == 0 {
+							lookups, updates, viaCall = ls, us, call.(ssa.Instruction)
 						}
 					}
 				}
@@ -355,15 +373,21 @@ func c17() []*Ob {
 					c.Undecided("SetMultiple:shape", fn.Pos(), "SetMultiple no longer looks up and updates the positions map")
 					return
 				}
+				heldAt := func(in ssa.Instruction) int {
+					if viaCall != nil {
+						return li.Held(viaCall, "dp.mu")
+					}
+					return li.Held(in, "dp.mu")
+				}
 				for _, l := range lookups {
-					if li.Held(l, "dp.mu") == 2 {
+					if heldAt(l) == 2 {
 						c.Site(l.Pos(), "the deciding lookup runs under the write lock")
 					} else {
-						c.Violation("lock:SetMultiple:lookup-under-write-lock", l.Pos(), "SetMultiple decides whether an id is new without holding the write lock (held: %s): two concurrent deliveries of the same ids both see them as new, nothing is filtered and each document is indexed twice", modeStr(li.Held(l, "dp.mu")))
+						c.Violation("lock:SetMultiple:lookup-under-write-lock", l.Pos(), "SetMultiple decides whether an id is new without holding the write lock (held: %s): two concurrent deliveries of the same ids both see them as new, nothing is filtered and each document is indexed twice", modeStr(heldAt(l)))
 					}
 				}
 				for _, u := range updates {
-					if li.Held(u, "dp.mu") != 2 {
+					if heldAt(u) != 2 {
 						c.Violation("lock:SetMultiple:update", u.Pos(), "SetMultiple stores a position without the write lock")
 					}
 					// guarded by !ok || savedPos == pos[i]
@@ -473,7 +497,8 @@ func c17() []*Ob {
 						}
 						// sort precedes dedup (adjacent-duplicate removal needs order)
 						var sorts []ssa.Instruction
-						for _, sc := range CallsIn(fn, Callee("sort.Sort", "sort.Stable", "slices.SortFunc", "sort.Slice")) {
+						// the sort call, or the call of a private helper that sorts on every path
+						for _, sc := range CallsIn(fn, c.P.MustCall(Callee("sort.Sort", "sort.Stable", "slices.SortFunc", "sort.Slice"))) {
 							sorts = append(sorts, sc.(ssa.Instruction))
 						}
 						if AllPathsPass(sorts, rr[0].(ssa.Instruction)) {
